@@ -96,6 +96,7 @@ def encWorld (W5 : C05.World V) : Obj.World V where
   ext name args := match name, args with
     | "copy_value", [x] => .ok x
     | _, _ => .error (.unmodelled "external function outside the encoding")
+  clsAttr _ _ := none
 
 example (W5 : C05.World V) : WorldOk (encWorld W5) W5 := fun _ _ => rfl
 
